@@ -8,8 +8,9 @@ import (
 
 func TestReplay(t *testing.T) {
 	verif.ReplayMain(map[string]func(){
-		"HarnessClientCancel": HarnessClientCancel,
-		"HarnessHTTPCancel":   HarnessHTTPCancel,
-		"HarnessServerCancel": HarnessServerCancel,
+		"HarnessClientCancel":       HarnessClientCancel,
+		"HarnessHTTPCancel":         HarnessHTTPCancel,
+		"HarnessServerCancel":       HarnessServerCancel,
+		"HarnessSubscriptionCancel": HarnessSubscriptionCancel,
 	})
 }
